@@ -88,14 +88,12 @@ example : (run cfg (.credit 4) (St.init ⟨8, 8, 0, 0, none, none, []⟩)
     [.lock, .check false, .op (.ack 0 4), .lock, .check false]).pc = .returned .ok := by decide
 
 /-- Reachable states (any history `pre`) in which the condition holds and the waiter has not returned. -/
-structure Ready (k : Kind) (st : St) : Prop where
-  reach : ∃ s0 pre, st = run cfg k (St.init s0) pre
-  holds : pred k st.sh = true
-  notReturned : st.pc.isReturned = false
+def Ready (k : Kind) (st : St) : Prop :=
+  (∃ s0 pre, st = run cfg k (St.init s0) pre) ∧ pred k st.sh = true ∧ st.pc.isReturned = false
 
-theorem Ready.bound {k : Kind} {st : St} (h : Ready k st) : Bound k (expected k st.sh) st.sh st := by
-  obtain ⟨s0, pre, rfl⟩ := h.reach
-  exact Bound.of_noLost (NoLost.run source_facts pre (NoLost.init k s0)) h.holds h.notReturned
+private theorem Ready.bound {k : Kind} {st : St} (h : Ready k st) : Bound k (expected k st.sh) st.sh st := by
+  obtain ⟨⟨s0, pre, rfl⟩, hp, hnr⟩ := h
+  exact Bound.of_noLost (NoLost.run source_facts pre (NoLost.init k s0)) hp hnr
 
 /-- **No re-park.** Once the condition holds and no further method runs, whatever the waiter does
 (and whatever spurious wake-ups occur) it is never parked again. -/
@@ -111,7 +109,7 @@ theorem progress (k : Kind) (st : St) (h : Ready k st) (e : Bool) :
     (run cfg k st [.lock, .check e]).pc = .returned (expected k st.sh) := by
   have hb := h.bound
   rcases hb with hb | ⟨hpc, hp, _, _, hm⟩
-  · have := h.notReturned; simp [hb, PC.isReturned] at this
+  · have := h.2.2; simp [hb, PC.isReturned] at this
   · obtain ⟨s', hs', _⟩ := runBody_std_true k e st.sh hp
     have hl := source_facts.loopOf k
     rcases hpc with h1 | h1 | h1
